@@ -381,11 +381,31 @@ func fail(r *hk.Run, p, site, class string, in interface{}, detail string) {
 }
 
 func run(r *hk.Run) {
-	r.SetCoq("From NV Require Import Lib.Base Codec.Lang Codec.Def Codec.Sem Codec.Dispatch Codec.GenDefs Codec.Corr.\nFrom Coq Require Import String.\nOpen Scope N_scope.\nOpen Scope string_scope.", "case")
+	r.SetCoq("From NV Require Import Lib.Base Codec.Lang Codec.Def Codec.Sem Codec.Stmt Codec.Dispatch Codec.GenDefs Codec.Corr.\nFrom Coq Require Import String.\nOpen Scope N_scope.\nOpen Scope string_scope.", "case")
+	pinned := map[string]msgInfo{}
+	for _, mi := range pinnedMsgs {
+		pinned[mi.Name] = mi
+	}
+	differs := 0
+	var diffMsgs []msgT // the current source's own table, where it differs: its guard constants are boundary hints
 	for _, mi := range genMsgs {
+		// inputs are generated from the pinned table; a message unknown to it falls back to the
+		// table extracted from the current source
+		if pm, ok := pinned[mi.Name]; ok && len(pm.Slots) == len(mi.Slots) {
+			if fmt.Sprintf("%v", pm.Slots) != fmt.Sprintf("%v", mi.Slots) {
+				differs++
+				diffMsgs = append(diffMsgs, analyse(mi))
+			}
+			mi.Slots = pm.Slots
+		} else {
+			differs++
+		}
 		msgs = append(msgs, analyse(mi))
 	}
+	r.Extra["messages_whose_extracted_table_differs_from_pinned"] = differs
 	maxAllocRatio := 0.0
+	remeasured := 0
+	implOnly := false // true: the case is checked by the Go-side oracles only (not replayed in Coq)
 	// ---- decode cases
 	decCase := func(stream string, m msgT, in []byte, nontrivial bool) {
 		res, _ := decodeMsg(m.msgInfo, in)
@@ -399,7 +419,7 @@ func run(r *hk.Run) {
 			obs = "DPanic"
 		}
 		desc := fmt.Sprintf("Decode%s %s", m.Name, hk.Hex(in))
-		if len(in) <= 3000 {
+		if len(in) <= 3000 && !implOnly {
 			r.AddCase(fmt.Sprintf("CDec %d %q %s (%s)", id, m.Name, hk.CoqBytes(in), obs), desc)
 		}
 		key := ""
@@ -421,6 +441,17 @@ func run(r *hk.Run) {
 			fail(r, "C01", site, "hang", hk.Hex(in), "decoder did not return within 5 s")
 		}
 		bound := float64(64*len(in) + 4096 + 2*65535 + 65536)
+		if float64(res.alloc) > bound {
+			// runtime.MemStats.TotalAlloc is process-wide (runtime bookkeeping, map growth of the harness
+			// itself can fall into the window); the decoder's own allocation is deterministic, so an
+			// excess only counts when it is reproduced: minimum over three further measurements
+			for k := 0; k < 3; k++ {
+				if again, _ := decodeMsg(m.msgInfo, in); again.alloc < res.alloc {
+					res.alloc = again.alloc
+				}
+			}
+			remeasured++
+		}
 		ratio := float64(res.alloc) / bound
 		if ratio > maxAllocRatio {
 			maxAllocRatio = ratio
@@ -510,7 +541,7 @@ func run(r *hk.Run) {
 	quick := !r.Thorough()
 	wantDec := prop == "C01" || prop == "C03" || prop == "C04" || prop == "C10"
 	wantEnc := prop == "C02" || prop == "C04" || prop == "C10" || prop == "C03"
-	wantDisp := prop == "C05" || prop == "C01"
+	wantDisp := prop == "C05" || prop == "C01" || prop == "C10"
 	lean := prop == "C03" || prop == "C10" // these need accepted inputs, not every truncation
 	decStreams := func() {
 		// S1 corpus: the repository's own vectors, through the message decoders
@@ -535,7 +566,8 @@ func run(r *hk.Run) {
 			}
 		}
 		// S2 directed: every message x every slot x boundary lengths x truncation points
-		for _, m := range msgs {
+		// (also with the current source's own table where it differs from the pinned one)
+		for _, m := range append(append([]msgT{}, msgs...), diffMsgs...) {
 			base := m.mandatory(r.Rng, true)
 			decCase("directed", m, base, true)
 			for k := 0; k < len(base); k++ { // every truncation of the mandatory part
@@ -592,6 +624,18 @@ func run(r *hk.Run) {
 					}
 					full := append(append([]byte{}, prefix...), w...)
 					decCase("directed", m, full, true)
+					if prop == "C04" && s.HasLen {
+						// the pinned table decides: a declared length outside its bounds is an error,
+						// one inside them (content complete) is accepted
+						got, _ := decodeMsg(m.msgInfo, full)
+						site := "nasMessage.Decode" + m.Name
+						if !s.lenOK(l) && got.class != "err" {
+							fail(r, "C04", site, "accepts-length-out-of-bounds", hk.Hex(full), fmt.Sprintf("%s declared length %d is outside the table bounds but the decoder returned %s", s.Name, l, got.class))
+						}
+						if s.lenOK(l) && got.class != "ok" {
+							fail(r, "C04", site, "rejects-length-in-bounds", hk.Hex(full), fmt.Sprintf("%s declared length %d is within the table bounds but the decoder returned %s", s.Name, l, got.class))
+						}
+					}
 					// truncation points inside the element: each octet of its header, then a few in the content
 					start := len(prefix)
 					if s.Mand {
@@ -664,6 +708,64 @@ func run(r *hk.Run) {
 				copy(in, m.mandatory(r.Rng, true))
 			}
 			decCase("malformed", m, in, n > 4)
+		}
+		// S5 length sweep, implementation only (C01 oracles: no panic, no hang, bounded allocation):
+		// every declared length of every element that carries one, with the content present and cut short
+		if prop == "C01" {
+			implOnly = true
+			for _, m := range msgs {
+				base := m.mandatory(r.Rng, true)
+				for _, s := range m.slots {
+					if !s.HasLen {
+						continue
+					}
+					var ls []int
+					if s.lenW == 1 {
+						for l := 0; l < 256; l++ {
+							ls = append(ls, l)
+						}
+					} else {
+						for l := 0; l <= 300; l++ {
+							ls = append(ls, l)
+						}
+						for k := 9; k <= 16; k++ {
+							ls = append(ls, 1<<uint(k)-1)
+							if k < 16 {
+								ls = append(ls, 1<<uint(k), 1<<uint(k)+1)
+							}
+						}
+						if quick {
+							ls = ls[:len(ls)-12] // up to 2^12-1 at quick
+						}
+					}
+					for _, l := range ls {
+						var full []byte
+						if s.Mand {
+							for _, t := range m.slots {
+								if !t.Mand {
+									continue
+								}
+								if t.Name == s.Name {
+									full = append(full, t.validWire(r.Rng, l)...)
+								} else {
+									tl, _, _ := t.lenRange()
+									full = append(full, t.validWire(r.Rng, tl)...)
+								}
+							}
+						} else {
+							full = append(append([]byte{}, base...), s.validWire(r.Rng, l)...)
+						}
+						decCase("sweep", m, full, true)
+						if l > 0 && len(full) > 0 {
+							decCase("sweep", m, full[:len(full)-1], false)
+							if len(full) >= l {
+								decCase("sweep", m, full[:len(full)-l], false)
+							}
+						}
+					}
+				}
+			}
+			implOnly = false
 		}
 		if !quick {
 			// long inputs up to 70 000 octets: implementation only (the oracle), the model is not run on them
@@ -834,6 +936,7 @@ func run(r *hk.Run) {
 		encCase("illformed-messages", m, mv, false)
 	}
 	r.Extra["max_alloc_over_bound"] = maxAllocRatio
+	r.Extra["alloc_measurements_repeated"] = remeasured
 	r.Extra["messages"] = len(msgs)
 	if wantDisp {
 		dispatchCases(r)
